@@ -12,6 +12,7 @@ from checks import htmlfam
 def main(tier):
     c = vlib.Check("C10", tier)
     c.phase_proofs()
+    c.phase_proofs("HtmlBytes")   # byte-level forms via the lexer round trip (Proofs/HtmlLexRt.v)
     n = 3000 if tier == "quick" else 30000
     recs = htmlfam.tie_html(c, n, 400 if tier == "quick" else 4000)
     if recs is None:
